@@ -1881,6 +1881,18 @@ def mutants(tree):
                "        for arr in [res, dres, X1]:\n            assert arr.flags.c_contiguous\n", "", expect="guards"),
         Mutant("guards: offset + nalpha <= stride weakened to nalpha <= stride", LC,
                "        assert offset + nalpha <= stride\n", "        assert nalpha <= stride\n", expect="guards"),
+        # ---- noncontig
+        Mutant("noncontig: Gaunt table served as a column view of a cached larger table", "ciderpress/dft/sph_harm_coeff.py",
+               "    nlm = (lmax + 1) * (lmax + 1)\n    gaunt_coeff = np.zeros((5, nlm))",
+               "    nlm = (lmax + 1) * (lmax + 1)\n    if lmax < 3:\n        return get_deriv_ylm_coeff(3)[:, :nlm]\n"
+               "    gaunt_coeff = np.zeros((5, nlm))", expect="noncontig"),
+        Mutant("noncontig: stepped slice handed to C", PW,
+               "        rhat_gv.ctypes.data_as(ctypes.c_void_p),\n        res.ctypes.data_as(ctypes.c_void_p),\n    )\n    return res\n",
+               "        rhat_gv[::2].ctypes.data_as(ctypes.c_void_p),\n        res.ctypes.data_as(ctypes.c_void_p),\n    )\n    return res\n",
+               expect="noncontig"),
+        Mutant("noncontig: attribute holds an inner-axis slice", "ciderpress/dft/lcao_interpolation.py",
+               "            self._gaunt_coeff = get_deriv_ylm_coeff(self.lmax)",
+               "            self._gaunt_coeff = get_deriv_ylm_coeff(self.lmax + 1)[:, : (self.lmax + 1) ** 2]", expect="noncontig"),
         # ---- bound-prov
         Mutant("bound: total row count passed for the per-spin sample count (RBFEvaluator)", XE,
                "        n = X1.shape[-2]\n        for arr in [res, dres, X1]:", "        n = X1.size // self._nfeat\n        for arr in [res, dres, X1]:",
